@@ -39,7 +39,16 @@ func c23Configs() []*Config {
 	two := base
 	two.Name, two.Opens, two.Accepts, two.Preamble, two.Depth = "W2-two-streams-established", [2]int{2, 0}, [2]int{0, 2}, twoEstablished, 6
 	two.Writers, two.Readers, two.Closers, two.WriteSizes, two.ReadSizes = [2]bool{true, false}, [2]bool{false, true}, [2]bool{true, false}, []int{1, 3}, []int{0, 3}
-	cfgs := []*Config{&scratch, &est, &two}
+	// Half-close under backpressure: one write buffer and a carrier that holds
+	// one chunk per direction, so that window increments and the close-write
+	// message wait in the multiplexer's accumulator while the only buffer is
+	// stuck in the carrier. A (opener) writes a full window at a time, B writes
+	// single bytes, reads and half-closes; the still-open direction A>B must
+	// keep its full window.
+	hc := base
+	hc.Name, hc.WriteBuffers, hc.MaxHeld, hc.Preamble, hc.Depth = "W2-backpressure-one-write-buffer-halfclose", 1, 1, established, 10
+	hc.WriteSizesBySide, hc.ReadSizes, hc.Closers, hc.Kinds = [2][]int{{2}, {1}}, []int{2}, [2]bool{false, true}, []string{"closeWrite"}
+	cfgs := []*Config{&scratch, &est, &two, &hc}
 	if vr.Thorough() {
 		scratch.Depth, est.Depth, two.Depth = 11, 9, 7
 		w3 := base
